@@ -388,6 +388,44 @@ def observe(real: Real, model: Model, op, hist, deep: bool):
                 out.append(_err("extract_field on a non-collection did not raise", hist))
             except TypeError:
                 pass
+        # ---- independence in both directions, also LATER: (1) the source is written again after deriving ----
+        mode0, kind0 = getattr(real, "mode0", None), getattr(real, "kind0", None)
+        if mode0 is not None and not out:
+            for follow in FOLLOW_UPS:
+                real2, model2 = _rebuild(mode0, kind0, hist)
+                derived = [(nm, d, _snapshot(np, d)) for nm, d in _derive_all(real2, model2)]
+                for op2 in follow:
+                    if enabled(op2, model2):
+                        model2.step(op2)
+                        try:
+                            real2.step(op2)
+                        except Exception:  # noqa: BLE001
+                            pass
+                for nm, d, snap in derived:
+                    if _snapshot(np, d) != snap or len(d) != len(snap[0]):
+                        out.append(_err(f"{nm}: derived storage changed when the source was written later", hist, follow=follow))
+                        continue
+                    try:
+                        back = [real2.flat(d[i]) for i in range(len(d))]
+                    except Exception as e:  # noqa: BLE001
+                        out.append(_err(f"{nm}: derived storage cannot be read after the source was written later", hist,
+                                        follow=follow, error=type(e).__name__))
+                        continue
+                    if back != snap[1]:
+                        out.append(_err(f"{nm}: fields of the derived storage changed when the source was written later", hist, follow=follow))
+            # (2) the derived storages are written to: the source must not notice
+            for nm, d in _derive_all(real, model):
+                for fld, tt in ((real.a, 9.5), (real.c, 9.75)):
+                    try:
+                        d.append(fld, tt)
+                    except Exception:  # noqa: BLE001
+                        pass
+                try:
+                    d.clear()
+                except Exception:  # noqa: BLE001
+                    pass
+            if [float(t) for t in st.times] != times or len(st) != len(frames):
+                out.append(_err("writing to a derived storage changed the times of the original", hist))
         # derived objects did not disturb the original
         for i, (t, d) in enumerate(frames):
             if tuple(complex(v) for v in np.asarray(st.data[i]).ravel()) != d:
@@ -402,8 +440,43 @@ def run_history(case):
     return {"v": viol}
 
 
+FOLLOW_UPS = [["appA"], ["start", "appA"], ["appN", "appB"], ["clear"], ["end", "start", "appB"], ["track"], ["startC", "appC"]]
+
+
+def _rebuild(mode, kind, hist):
+    """the real storage after `hist`, without any observation (used to look ahead from a derived storage)"""
+    real = Real(mode, kind)
+    model = Model(mode, real.flat(real.a), real.flat(real.b), real.flat(real.x))
+    if "+pre" in kind:
+        real.prefill(mode, kind.endswith("preC"))
+        model.prefill(kind.endswith("preC"))
+    for op in hist:
+        if not enabled(op, model):
+            continue
+        model.step(op)
+        try:
+            real.step(op)
+        except Exception:  # noqa: BLE001
+            pass
+    return real, model
+
+
+def _derive_all(real, model):
+    """every kind of derived storage of the current contents: [(name, storage)]"""
+    st = real.st
+    out = [("copy()", st.copy()), ("apply()", st.apply(lambda f, t: f * 2 + t)), ("extract_time_range()", st.extract_time_range(None))]
+    if real.kind == "collection" and model.template == "ab":
+        out += [("extract_field(0)", st.extract_field(0)), ("extract_field('q')", st.extract_field("q"))]
+    return out
+
+
+def _snapshot(np, d):
+    return ([float(t) for t in d.times], [tuple(complex(v) for v in np.asarray(x).ravel()) for x in d.data])
+
+
 def _replay(mode, kind, hist, check_all=False):
     real = Real(mode, kind)
+    real.mode0, real.kind0 = mode, kind
     model = Model(mode, real.flat(real.a), real.flat(real.b), real.flat(real.x))
     if "+pre" in kind:
         real.prefill(mode, kind.endswith("preC"))
